@@ -41,6 +41,14 @@ func genStr(p *prng) string {
 	return sb.String()
 }
 
+type badJSONMarshaler struct{}
+
+func (badJSONMarshaler) MarshalJSON() ([]byte, error) { return nil, errors.New("cannot be encoded") }
+
+type badTextMarshaler struct{}
+
+func (badTextMarshaler) MarshalText() ([]byte, error) { return nil, errors.New("cannot be encoded") }
+
 // genVal returns a Go value and the token stream encoding/json walks for it
 func genVal(p *prng, depth int) (interface{}, []string) {
 	k := p.intn(12)
@@ -71,7 +79,25 @@ func genVal(p *prng, depth int) (interface{}, []string) {
 		return s, []string{"S" + hx([]byte(s))}
 	case 7:
 		if p.chance(1, 3) {
-			return make(chan int), []string{"U"}
+			// values encoding/json refuses, by every route it has for refusing: an unsupported kind, a
+			// marshaller that fails (value and text), raw bytes that are not JSON, an invalid number literal,
+			// a function, a complex number
+			switch p.intn(7) {
+			case 0:
+				return make(chan int), []string{"U"}
+			case 1:
+				return badJSONMarshaler{}, []string{"U"}
+			case 2:
+				return badTextMarshaler{}, []string{"U"}
+			case 3:
+				return json.RawMessage("{not json"), []string{"U"}
+			case 4:
+				return json.Number("12x"), []string{"U"}
+			case 5:
+				return func() {}, []string{"U"}
+			default:
+				return map[badTextMarshaler]int{{}: 1}, []string{"U"}
+			}
 		}
 		s := genStr(p)
 		return s, []string{"S" + hx([]byte(s))}
@@ -288,6 +314,14 @@ func jsonMain(args []string) {
 		payload, toks := genVal(p, 3)
 		ty := genStr(p)
 		created := time.Date(2020+p.intn(5), time.Month(1+p.intn(12)), 1+p.intn(28), p.intn(24), p.intn(60), p.intn(60), p.intn(2)*p.intn(1e9), time.UTC)
+		switch p.intn(10) {
+		case 0: // not stamped by Broker.Send
+			created = time.Time{}
+			st.hit("time:zero")
+		case 1:
+			created = time.Date(1+p.intn(9998), time.Month(1+p.intn(12)), 1+p.intn(28), p.intn(24), p.intn(60), p.intn(60), p.intn(1e9), time.FixedZone("x", (p.intn(27)-13)*3600+p.intn(2)*1800))
+			st.hit("time:zoned")
+		}
 		ctok, _ := json.Marshal(created)
 		e := &eventlogger.Event{Type: eventlogger.EventType(ty), CreatedAt: created, Formatted: map[string][]byte{}, Payload: payload}
 		if p.chance(1, 5) {
